@@ -53,9 +53,9 @@ func (g *Gen) val(v ssa.Value) Val {
 	case *ssa.Const:
 		return g.constVal(x)
 	case *ssa.Global:
-		return Val{T: fmt.Sprint(g.P.globalRef(x)), S: "Int", G: x.Type()}
+		return Val{T: fmt.Sprint(g.P.globalRef(x) * refStride), S: "Int", G: x.Type()}
 	case *ssa.Function:
-		return Val{T: fmt.Sprint(g.P.funcRef(x)), S: "Int", G: x.Type()}
+		return Val{T: fmt.Sprint(g.P.funcRef(x) * refStride), S: "Int", G: x.Type()}
 	case *ssa.Builtin:
 		return Val{T: "0", S: "Int", G: x.Type()}
 	}
@@ -88,7 +88,7 @@ func (g *Gen) run() {
 	fn := g.fn
 	g.entry = &State{heaps: map[string]string{}, pend: map[string]string{}}
 	g.entry.alloc = g.declConst("alloc@0", "Int")
-	g.assumeRaw(sx("<=", fmt.Sprint(g.P.nStatic()), g.entry.alloc))
+	g.assumeRaw(sx("<=", fmt.Sprint((g.P.nStatic()+1)*refStride), g.entry.alloc))
 	g.cur = "true"
 	g.st = g.entry.clone()
 
@@ -895,7 +895,7 @@ func (g *Gen) load(x *ssa.UnOp) {
 		v := g.loadLoc(g.st, p.Loc)
 		v.G = et
 		g.set(x, v)
-		g.assume(g.typeInv(g.vals[x], g.boundState(p.Loc.Heap)))
+		g.assumeLoaded(g.vals[x], p.Loc)
 		return
 	}
 	g.check("nil", "load."+srcName(x.X), not(sx("=", p.T, "0")), "nil pointer dereference")
@@ -910,22 +910,39 @@ func (g *Gen) load(x *ssa.UnOp) {
 		l := g.cellLoc(p, et)
 		v := g.loadLoc(g.st, l)
 		g.set(x, v)
-		g.assume(g.typeInv(g.vals[x], g.boundState(l.Heap)))
+		g.assumeLoaded(g.vals[x], l)
 	}
 }
 
-// boundState: references read from a heap version that has not been written
-// since it was introduced (function entry, loop head, call return) were
-// allocated when that version was introduced.
-func (g *Gen) boundState(heapName string) *State {
-	t, ok := g.st.heaps[heapName]
+// assumeLoaded: type invariant of a loaded value. References read from a
+// heap version that has not been written since it was introduced (function
+// entry, loop head, call return) were allocated when that version was
+// introduced -- provided the object read from existed then (objects allocated
+// later by callees live above that counter and may hold newer references).
+func (g *Gen) assumeLoaded(v Val, l *Loc) {
+	g.assume(g.typeInv(v, g.st))
+	root := l
+	for root.Kind == LSub {
+		root = root.Parent
+	}
+	t, ok := g.st.heaps[root.Heap]
 	if !ok {
-		t = g.heap(g.st, heapName, g.heapSort[heapName])
+		t = g.heap(g.st, root.Heap, g.heapSort[root.Heap])
 	}
-	if a, ok := g.verAlloc[t]; ok {
-		return &State{alloc: a}
+	a, ok := g.verAlloc[t]
+	if !ok || a == g.st.alloc || v.G == nil {
+		return
 	}
-	return g.st
+	var ref string
+	switch v.G.Underlying().(type) {
+	case *types.Pointer, *types.Map, *types.Chan, *types.Signature:
+		ref = v.T
+	case *types.Slice:
+		ref = sx("s-arr", v.T)
+	default:
+		return
+	}
+	g.assume(implies(sx("<=", root.Base, a), sx("<=", ref, a)))
 }
 
 func (g *Gen) store(x *ssa.Store) {
